@@ -586,12 +586,12 @@ func (server *SugarDB) adjustMemoryUsage(ctx context.Context) error {
 		// or there are no more keys remaining.
 		for {
 			// If there are no keys, return error
-			if len(server.store) == 0 {
+			if len(server.store[database]) == 0 {
 				err := errors.New("no keys to evict")
 				return fmt.Errorf("adjustMemoryUsage -> all keys random: %+v", err)
 			}
 			// Get random key in the database
-			idx := rand.Intn(len(server.store))
+			idx := rand.Intn(len(server.store[database]))
 			for db, data := range server.store {
 				if db == database {
 					for key, _ := range data {
